@@ -17,7 +17,7 @@ RULE = (
     "loaded values of every variable incl. pixels, coordinates, encodings) are identical except "
     "encoding.preferred_chunksizes of the image variable, which must be {rows: min(rpc, N), "
     "columns: P}; each tree is then read again in pieces (rows 1.., every 3rd row, all rows) and "
-    "must return the pixels of its first full load. Non-trivial: rpc1 != rpc2 and min(rpc1, rpc2) < N."
+    "must return the pixels of its first full load. Stage 'giant-chunk': one 1100-line image of 1.1 GB; with rpc=4096 the whole image is ONE request of more than 2^30 bytes; six lines before / at / beyond the first GiB of that request are compared with the bytes of the file, for rpc=64 and rpc=4096. Non-trivial: rpc1 != rpc2 and min(rpc1, rpc2) < N."
 )
 ASSUMPTIONS = ["dask is absent: chunks=None; the advertised chunking is observed through .encoding"]
 BUDGET = {"quick": 120, "thorough": 1500}
@@ -82,15 +82,64 @@ def all_rpc_cases():
             }
 
 
+def giant_cases():
+    """one image whose lines add up to more than 1 GiB: with records_per_chunk >= N the whole
+    image is a single request of > 2^30 bytes; selected lines (before and beyond the first GiB
+    of that request) must hold the bytes of the file, as they do with small requests"""
+    yield {"giant": True, "level": "1.5", "images": [{"lines": 1100, "pixels": 499900}], "vseed": 3,
+           "rpcs": [64, 4096], "rows": [0, 5, 1073, 1074, 1080, 1099], "case_timeout_s": 600}
+
+
+def run_giant(case):
+    import numpy as np
+
+    from vf.runner import touch
+
+    spec = common.spec_from(case)
+    files, info = product.build_product(spec)
+    touch()
+    iinfo = info["images"][0]
+    raw = files[iinfo["name"]]
+    lines, pixels, reclen = iinfo["lines"], iinfo["pixels"], iinfo["reclen"]
+    gname = common.group_names(spec)[0]
+    out = []
+    with harness.Materialised(files, "local") as prod:
+        touch()
+        for rpc in case["rpcs"]:
+            tree, err = harness.guard(harness.open_tree, prod.url, records_per_chunk=rpc, use_cache=False)
+            touch()
+            if err is not None:
+                return [harness.disc("exception", f"open_alos2(rpc={rpc})", "a tree", harness.exc_text(err))]
+            da = tree[f"imagery/{gname}"]["data"]
+            if tuple(da.shape) != (lines, pixels):
+                return [harness.disc("shape", f"/imagery/{gname}#data (rpc={rpc})", (lines, pixels), tuple(da.shape))]
+            for row in case["rows"]:
+                values, err = harness.guard(lambda: np.asarray(da.isel(rows=row).values))
+                touch()
+                if err is not None:
+                    out.append(harness.disc("exception", f"load of line {row} (rpc={rpc})", "the line", harness.exc_text(err)))
+                    break
+                want = np.frombuffer(raw, ">u2", pixels, 720 + row * reclen + (reclen - 2 * pixels))
+                if values.shape != want.shape or not bool((values == want).all()):
+                    bad = int((values != want).sum()) if values.shape == want.shape else -1
+                    out.append(harness.disc("rpc-dependence", f"/imagery/{gname}#data line {row} (rpc={rpc}; one request of {min(rpc, lines) * reclen} bytes)",
+                                            "the samples stored in the file (as returned with small requests)", f"{bad} of {pixels} samples differ"))
+                    break
+    return out
+
+
 def plan(tier):
     n = 240 if tier == "quick" else 20000
     return [
+        {"kind": "enum", "name": "giant-chunk", "cases": giant_cases, "exhaustive": False},
         {"kind": "enum", "name": "all-rpc", "cases": all_rpc_cases, "exhaustive": True},
         {"kind": "hyp", "name": "pairs", "strategy": pair_cases(), "examples": n},
     ]
 
 
 def classify(case):
+    if case.get("giant"):
+        return True, [f"level={case['level']}", "images=1", "request>2^30 bytes"]
     n = case["images"][0]["lines"]
     a, b = case["rpc1"], case["rpc2"]
     nontrivial = a != b and min(a, b) < n
@@ -147,6 +196,8 @@ def reload_checks(tree, flat, spec, tag, rpc):
 
 
 def run_case(case):
+    if case.get("giant"):
+        return run_giant(case)
     spec = common.spec_from(case)
     files, info = product.build_product(spec)
     out = []
